@@ -33,13 +33,15 @@ class Layout:
 class Contract:
     def __init__(self, qual, file, path, self_cls=None, params=None, requires=None, ensures=None, raises=None,
                  on_raise=None, modifies=None, modifies_args=None, result=None, invariants=None, locals=None,
-                 aliases=None, tags=None, properties=None, assumed=False, pure=False, note=""):
+                 aliases=None, tags=None, properties=None, assumed=False, pure=False, note="", may_raise=None, fixed=None):
         self.qual, self.file, self.path, self.self_cls = qual, file, path, self_cls
         self.params = dict(params or {})
         self.param_names = list(self.params)
         self.requires = dict(requires or {})
         self.ensures = dict(ensures or {})
         self.raises = dict(raises or {})
+        self.may_raise = dict(may_raise or {})
+        self.fixed = dict(fixed or {})
         self.on_raise = on_raise            # None -> state unchanged
         self.modifies = list(modifies or [])
         self.modifies_args = dict(modifies_args or {})
@@ -67,7 +69,19 @@ class Registry:
         self.contracts[c.qual] = c
 
     def method_contract(self, cls, meth):
-        return self.contracts.get(f"{cls}.{meth}")
+        """Contract used for frame information (union of the `modifies` of all variants)."""
+        vs = self.method_variants(cls, meth)
+        if not vs:
+            return None
+        if len(vs) == 1:
+            return vs[0]
+        import copy
+        c = copy.copy(vs[0])
+        c.modifies = sorted({f for v in vs for f in v.modifies})
+        return c
+
+    def method_variants(self, cls, meth):
+        return [c for c in self.contracts.values() if c.self_cls == cls and c.path[-1] == meth]
 
     def resolve_function(self, name, module=None):
         for q, c in self.contracts.items():
@@ -274,6 +288,14 @@ class Engine(ExprMixin, CallMixin, StmtMixin):
         if fn in ("fst", "snd"):
             a = self.ev(e.args[0], p)
             return T.scalar(a.ty.a, a.ty.fst(a.t)) if fn == "fst" else T.scalar(a.ty.b, a.ty.snd(a.t))
+        if fn == "sel":          # sel(h, k, order, size, up_to): does key k pass the order/size filter
+            h, k, order, size, up_to = (self.ev(a, p) for a in e.args)
+            lay = self.reg.layouts[h.ty.cls]
+            L = lay.views["KLEN"](self, p, h, k).t
+            order, size = self.coerce(order, T.Opt(T.INT)), self.coerce(size, T.Opt(T.INT))
+            o = z3.If(size.is_none, order.val.t, size.val.t - 1)
+            ut = self.truth(up_to, p)
+            return T.sv_bool(z3.Implies(z3.Not(z3.And(order.is_none, size.is_none)), z3.If(ut, L - 1 <= o, L - 1 == o)))
         # class-specific view functions, dispatched on the class of the first argument
         if e.args:
             saved = list(p.hyps)
@@ -354,32 +376,54 @@ class Engine(ExprMixin, CallMixin, StmtMixin):
             p.assume(g)
 
     # ------------------------------------------------------------------ modular calls
-    def bind_args(self, c, fdef, e, p, skip_self):
-        names = c.param_names
+    def bind_raw(self, fdef, e, p, skip_self, qual):
+        a = fdef.args
+        names = [x.arg for x in a.args][(1 if skip_self else 0):]
         bound = {}
-        pos = [self.ev(a, p) for a in e.args]
+        pos = [self.ev(x, p) for x in e.args]
         if len(pos) > len(names):
-            raise Unsupported(f"too many positional arguments for {c.qual}")
+            raise Unsupported(f"too many positional arguments for {qual}")
         for n, v in zip(names, pos):
             bound[n] = v
         for kw in e.keywords:
             if kw.arg not in names:
-                raise Unsupported(f"unknown keyword {kw.arg} for {c.qual}")
+                raise Unsupported(f"unknown keyword {kw.arg} for {qual}")
             bound[kw.arg] = self.ev(kw.value, p)
-        # defaults from the real signature
-        a = fdef.args
-        all_params = [x.arg for x in a.args][(1 if skip_self else 0):]
-        defaults = dict(zip(reversed(all_params), reversed(a.defaults)))
+        defaults = dict(zip(reversed(names), reversed(a.defaults)))
         for n in names:
             if n not in bound:
                 if n not in defaults:
-                    raise Unsupported(f"missing argument {n} for {c.qual}")
+                    raise Unsupported(f"missing argument {n} for {qual}")
                 d = defaults[n]
                 if not isinstance(d, ast.Constant):
                     raise Unsupported("non-constant default")
                 bound[n] = self.ev_Constant(d, p)
-        for n in names:
-            bound[n] = self.coerce_arg(bound[n], self.parse_ty_for(c, c.params[n]), p)
+        return bound
+
+    @staticmethod
+    def literal_eq(v, const):
+        if const is None:
+            return v.ty == T.NONE
+        if v.ty == T.NONE:
+            return False
+        if isinstance(const, bool):
+            return v.ty == T.BOOL and (z3.is_true(v.t) if const else z3.is_false(v.t))
+        if isinstance(const, int):
+            return v.ty == T.INT and z3.is_int_value(v.t) and v.t.as_long() == const
+        return False
+
+    def choose(self, cands, raw, what):
+        for c in cands:
+            if all(self.literal_eq(raw[n], val) for n, val in c.fixed.items()):
+                return c
+        raise Unsupported(f"no contract variant of {what} matches the literal arguments")
+
+    def coerce_bound(self, c, raw, p):
+        bound = {}
+        for n in c.param_names:
+            if n not in raw:
+                raise Unsupported(f"parameter {n} of {c.qual} not bound")
+            bound[n] = self.coerce_arg(raw[n], self.parse_ty_for(c, c.params[n]), p)
         return bound
 
     def coerce_arg(self, v, ty, p):
@@ -390,11 +434,13 @@ class Engine(ExprMixin, CallMixin, StmtMixin):
         return self.coerce(v, ty)
 
     def call_method(self, recv, f, e, p):
-        c = self.reg.method_contract(recv.ty.cls, f.attr)
-        if c is None:
+        cands = self.reg.method_variants(recv.ty.cls, f.attr)
+        if not cands:
             raise Unsupported(f"no contract for {recv.ty.cls}.{f.attr} (line {e.lineno})")
-        fdef, _ = self.load(c)
-        bound = self.bind_args(c, fdef, e, p, skip_self=True)
+        fdef, _ = self.load(cands[0])
+        raw = self.bind_raw(fdef, e, p, True, cands[0].qual)
+        c = self.choose(cands, raw, f"{recv.ty.cls}.{f.attr}")
+        bound = self.coerce_bound(c, raw, p)
         rname = f.value.id if isinstance(f.value, ast.Name) else None
         return self.apply_contract(c, recv, rname, bound, e, p)
 
@@ -402,20 +448,20 @@ class Engine(ExprMixin, CallMixin, StmtMixin):
         name = self.reg.contracts[q].path[-1]
         cands = self.reg.function_candidates(name)
         first = self.ev(e.args[0], p) if e.args else None
-        chosen = None
+        ok = []
         for c in cands:
             t0 = self.parse_ty_for(c, c.params[c.param_names[0]]) if c.param_names else None
             if isinstance(t0, T.Obj):
                 if first is not None and isinstance(first.ty, T.Obj) and first.ty.cls == t0.cls:
-                    chosen = c
-                    break
+                    ok.append(c)
             else:
-                chosen = c
-                break
-        if chosen is None:
-            raise Unsupported(f"no contract instance of {name} for {first.ty if first else None}")
-        fdef, _ = self.load(chosen)
-        bound = self.bind_args(chosen, fdef, e, p, skip_self=False)
+                ok.append(c)
+        if not ok:
+            raise Unsupported(f"no contract instance of {name} for {first.ty if first is not None else None}")
+        fdef, _ = self.load(ok[0])
+        raw = self.bind_raw(fdef, e, p, False, ok[0].qual)
+        chosen = self.choose(ok, raw, name)
+        bound = self.coerce_bound(chosen, raw, p)
         return self.apply_contract(chosen, None, None, bound, e, p, arg_exprs=e.args)
 
     def construct(self, cls, e, p):
@@ -423,7 +469,7 @@ class Engine(ExprMixin, CallMixin, StmtMixin):
         if c is None:
             raise Unsupported(f"no contract for {cls}.__init__")
         fdef, _ = self.load(c)
-        bound = self.bind_args(c, fdef, e, p, skip_self=True)
+        bound = self.coerce_bound(c, self.bind_raw(fdef, e, p, True, c.qual), p)
         obj = self.reg.layouts[cls].fresh_obj("new" + cls)
         env = {**bound, "self": obj}
         cx = Cx(old_env=dict(bound), result=None)
@@ -459,6 +505,12 @@ class Engine(ExprMixin, CallMixin, StmtMixin):
                         q.assume(g)
                 self.pending.append((q, exc))
             p.assume(z3.Not(cond))
+        for exc, cl in c.may_raise.items():
+            cond = z3.And(list(self.spec_eval(cl, pre_env, p, cx0).values()))
+            q = p.fork(f"line {e.lineno}: {c.qual} may raise {exc}")
+            q.assume(cond)
+            if not quick_unsat(q.hyps, self.prune_ms):
+                self.pending.append((q, exc))
         # normal exit
         post_recv = self.havoc_call(c, p, recv, rname, bound, arg_exprs, "post")
         result = None
@@ -531,9 +583,15 @@ class Engine(ExprMixin, CallMixin, StmtMixin):
         for n in real_params:
             if n not in c.params:
                 raise Unsupported(f"parameter `{n}` of {qual} has no declared type in the contract")
-            env[n] = self.fresh_of(self.parse_ty(c.params[n]), "arg_" + n)
+            if n in c.fixed:
+                env[n] = self.ev_Constant(ast.Constant(value=c.fixed[n]), None)
+            else:
+                env[n] = self.fresh_of(self.parse_ty(c.params[n]), "arg_" + n)
         self.entry_env = dict(env)
         p = Path(env, [], [])
+        for v in env.values():
+            for f in T.type_facts(v):
+                p.assume(f)
         cx0 = Cx(old_env=self.entry_env)
         for name, g in self.eval_clauses(c.requires, env, p, cx0).items():
             p.assume(g)
@@ -624,10 +682,11 @@ class Engine(ExprMixin, CallMixin, StmtMixin):
 
     def exit_raise(self, c, q, exc):
         cx0 = Cx(old_env=self.entry_env)
-        if exc not in c.raises:
+        if exc not in c.raises and exc not in c.may_raise:
             self.oblige(f"raises:{exc}", "undeclared", q, z3.BoolVal(False))
             return
-        cond = z3.And(list(self.spec_eval(c.raises[exc], self.entry_env, q, cx0).values()))
+        cl = c.raises.get(exc, c.may_raise.get(exc))
+        cond = z3.And(list(self.spec_eval(cl, self.entry_env, q, cx0).values()))
         self.oblige(f"raises:{exc}", "only-when", q, cond)
         env = self.exit_env(q)
         if c.on_raise is None:
